@@ -174,6 +174,6 @@ int main(int argc, char **argv) {
     ctx.init(argc, argv);
     run(1, 3); run(2, 3); run(3, 2); run(3, 3); run(4, 2); run(5, 2);
     run_thin(1, 2); run_thin(2, 2); run_thin(3, 2);
-    if (ctx.thorough()) { run_thin(2, 3); run_thin(4, 1); run(2, 4); run(3, 4); run(4, 3); run(6, 2); }
+    if (ctx.thorough()) { run_thin(2, 3); run_thin(4, 1); run_thin(3, 3); run_thin(4, 2); run(2, 4); run(3, 4); run(4, 3); run(6, 2); run(7, 2); run(5, 3); run(2, 5); run(3, 5); }
     return ctx.finish();
 }
